@@ -17,9 +17,10 @@ fn c01_range_new_no_overflow() {
 fn c17_range_new_shape() {
     let (from, to, inclusive): (i64, i64, bool) = (kani::any(), kani::any(), kani::any());
         let r = ValueRange::new(from, to, inclusive, UnitSet::scalar());
-    assert!(r.from == i128::from(from));
-    assert!(r.step == if to >= from { 1 } else { -1 }, "counts down when b < a");
-    assert!(r.to == if inclusive { i128::from(to) + r.step } else { i128::from(to) }, "through includes b, to stops before b");
+    // (`as i128`: independent of the integer type the fields have)
+    assert!(r.from as i128 == i128::from(from));
+    assert!(r.step as i128 == if to >= from { 1 } else { -1 }, "counts down when b < a");
+    assert!(r.to as i128 == if inclusive { i128::from(to) + r.step as i128 } else { i128::from(to) }, "through includes b, to stops before b");
 }
 
 // ---- K-snippet part (C17): unit handling of the END value of `@for`.
